@@ -14,7 +14,9 @@ FARM_RND = T(
 FARM_GEN = T([dict(cfg="GEN_Farm.cfg", num=20, depth=15, seeds=12)],
              [dict(cfg="GEN_Farm.cfg", num=60, depth=17, seeds=14)])
 FARM_SCN = [dict(file="scenarios/farm_F2.ndjson", cfg="users=2,rdenoms=1,initlp=3,initr=20,prec=10"),
-            dict(file="scenarios/farm_F3.ndjson", cfg="users=3,rdenoms=2,initlp=6,initr=60,prec=10")]
+            dict(file="scenarios/farm_F3.ndjson", cfg="users=3,rdenoms=2,initlp=6,initr=60,prec=10"),
+            # regression for fixed finding F30 (plain send to the module address before the account exists)
+            dict(file="scenarios/farm_F30.ndjson", cfg="users=2,rdenoms=1,initlp=3,initr=20,prec=10")]
 FARM_MC = T([dict(cfg="MC_Farm.cfg", timeout=1500)], [dict(cfg="MC_Farm_big.cfg", timeout=3400)])
 
 RECORD = [dict(binary="farm", n=T(3, 12), len=25, cfg="users=3,rdenoms=2,initlp=6,initr=60")]
